@@ -354,6 +354,37 @@ def rule_m2(repo, res):
                                 "or differently positioned change removes or moves the wrong occurrence when two values of "
                                 "the key compare equal, so lookup/getall disagree with the item list",
                                 where=f"pvl/collections.py:{n.lineno}"))
+    # M2-EMPTY: a key leaves the dict storage exactly when its value list has become empty: a storage delete that hangs
+    # on a test of the value list is guarded by the emptiness of that list (`not values`, `len(values) == 0`), not by a
+    # value taken from it (a falsy last value -- 0, "", an empty block -- would drop a key that still has values, a
+    # truthy one would leave an empty list behind)
+    n_empty = 0
+    for name, fn in fulls.items():
+        aliases = set()
+        for n in ast.walk(fn):
+            if isinstance(n, ast.Assign) and isinstance(n.targets[0], ast.Name) and pe.is_storage_list(n.value, set()):
+                aliases.add(n.targets[0].id)
+        for n in ast.walk(fn):
+            if not isinstance(n, ast.If):
+                continue
+            direct = [st for st in n.body + n.orelse if isinstance(st, ast.Expr) and isinstance(st.value, ast.Call)
+                      and isinstance(st.value.func, ast.Name) and dal.get(st.value.func.id) == "__delitem__"]
+            if not direct:
+                continue
+            mentions = [x for x in ast.walk(n.test) if pe.is_storage_list(x, aliases)]
+            if not mentions:
+                continue
+            n_empty += 1
+            calls = [c for c in ast.walk(n.test) if isinstance(c, ast.Call)]
+            pure = all(norm(c.func) == "len" and len(c.args) == 1 and pe.is_storage_list(c.args[0], aliases) for c in calls) \
+                and not any(isinstance(x, (ast.Subscript, ast.NamedExpr)) for x in ast.walk(n.test))
+            res.oblige("M2-EMPTY", f"{CONTAINER}.{name}: `if {norm(n.test, 50)}` before `{norm(direct[0], 40)}` tests the emptiness of the value list", ok=pure)
+            if not pure:
+                res.add(Finding("M2-EMPTY", f"{CONTAINER}.{name}", f"`if {norm(n.test, 50)}`",
+                                f"{CONTAINER}.{name} removes the key from the dict storage depending on `{norm(n.test, 60)}`, which is "
+                                "not the emptiness of the key's value list: a key that still has values is dropped from the mapping "
+                                "view (or an empty list stays) while the item list says otherwise", where=f"pvl/collections.py:{n.lineno}"))
+    res.floor("storage deletes guarded by the emptiness of the value list", n_empty, 1)
     # the key written to both representations is the same expression
     for name, fn in ci.methods.items():
         keys_list, keys_dict = set(), set()
@@ -916,11 +947,86 @@ def rule_m4(repo, res):
     res.oblige("M4", f"{CONTAINER}.key_index returns the instance-th position whose key equals the key", ok=ok)
     if not ok:
         F("key_index", "idxs[instance]", "key_index no longer returns the instance-th position of the key")
-    # equality compares pairs in order, both key and value, same class, same length
-    fn = M["__eq__"]
+    rule_m4_eq(repo, res)
+
+
+def rule_m4_eq(repo, res):
+    """equality of two containers: same class, same length, pairwise equal keys and values (structural)"""
+    from .inline import inline_all
+    ci = repo.cls(CONTAINER)
+    if "__eq__" not in ci.methods:
+        raise AnalysisError(f"anchor vanished: method {CONTAINER}.__eq__")
+    fn = inline_all(repo, CONTAINER, ci.methods["__eq__"], module=ci.module.name)
+    F = lambda m, what, msg: res.add(Finding("M4", f"{CONTAINER}.{m}", what, msg,
+                                             where=f"pvl/collections.py:{ci.methods[m].lineno}"))
     src = norm(fn, 4000)
-    ok = "isinstance(other, type(self))" in src and "len(self) != len(other)" in src and \
-        sum(1 for c in ast.walk(fn) if isinstance(c, ast.Compare) and isinstance(c.ops[0], ast.NotEq)) >= 3
+    def _is_len(e):
+        return isinstance(e, ast.Call) and norm(e.func) == "len" and len(e.args) == 1
+    same_cls = "isinstance(other, type(self))" in src or "type(other) is type(self)" in src or "type(self) is type(other)" in src \
+        or "type(other) == type(self)" in src or "type(self) == type(other)" in src
+    same_len = any(isinstance(c, ast.Compare) and len(c.ops) == 1 and isinstance(c.ops[0], (ast.NotEq, ast.Eq))
+                   and _is_len(c.left) and _is_len(c.comparators[0]) for c in ast.walk(fn)) \
+        or "zip_longest(" in src or "strict=True" in src
+    value_cmps = sum(1 for c in ast.walk(fn) if isinstance(c, ast.Compare) and isinstance(c.ops[0], (ast.NotEq, ast.Eq))
+                     and not (_is_len(c.left) or _is_len(c.comparators[0])))
+    ok = same_cls and same_len and value_cmps >= 1
     res.oblige("M4", f"{CONTAINER}.__eq__: same class, same length, pairwise equal keys and values", ok=ok)
     if not ok:
         F("__eq__", "pairwise comparison", "equality no longer requires the same class, the same length and pairwise equal keys and values")
+
+
+def rule_is_value(repo, res):
+    """IS-VALUE: in the container module no comparison decides with object identity (``is`` / ``is not``) unless one side
+    is a singleton: None / True / False / Ellipsis / NotImplemented, ``self``, a class or ``type(...)``, an Enum member, or
+    a sentinel bound to ``object()``.  Identity of two lengths, keys or values is an accident of the interpreter (small
+    integers and interned strings are shared, others are not), so equal copies compare unequal and a key equal to an
+    existing key is treated as a different one."""
+    ci = repo.cls(CONTAINER)
+    mod = ci.module
+    sentinels = set()
+    for st in ast.walk(mod.tree):
+        if isinstance(st, ast.Assign) and isinstance(st.value, ast.Call) and norm(st.value.func) in ("object", "builtins.object"):
+            for t in st.targets:
+                if isinstance(t, ast.Name):
+                    sentinels.add(t.id)
+                elif isinstance(t, ast.Attribute):
+                    sentinels.add(t.attr)
+    enums = {c for c, k in repo.classes.items() if any("Enum" in b for b in repo.mro(c))}
+    builtin_types = {"int", "float", "str", "bytes", "list", "tuple", "dict", "set", "frozenset", "bool", "object", "type"}
+
+    def singleton(e):
+        if isinstance(e, ast.Constant) and (e.value is None or e.value is True or e.value is False or e.value is Ellipsis):
+            return True
+        if isinstance(e, ast.Name) and (e.id in ("NotImplemented", "self", "cls", "Ellipsis") or e.id in sentinels
+                                        or e.id in repo.classes or e.id in builtin_types):
+            return True
+        if isinstance(e, ast.Attribute):
+            if e.attr in sentinels or e.attr == "__class__":
+                return True
+            if isinstance(e.value, ast.Name) and e.value.id in enums:
+                return True
+        if isinstance(e, ast.Call) and norm(e.func) == "type" and len(e.args) == 1:
+            return True
+        return False
+    n = 0
+    for cname, k in repo.classes.items():
+        if k.module is not mod:
+            continue
+        for mname, fn in k.methods.items():
+            for c in ast.walk(fn):
+                if not isinstance(c, ast.Compare):
+                    continue
+                operands = [c.left] + list(c.comparators)
+                for i, op in enumerate(c.ops):
+                    if isinstance(op, (ast.Is, ast.IsNot)):
+                        n += 1
+                        a, b = operands[i], operands[i + 1]
+                        ok = singleton(a) or singleton(b)
+                        res.oblige("IS-VALUE", f"{cname}.{mname}: `{norm(c, 60)}` compares with a singleton", ok=ok)
+                        if not ok:
+                            res.add(Finding("IS-VALUE", f"{cname}.{mname}", f"`{norm(c, 60)}`",
+                                            f"{cname}.{mname} decides `{norm(c, 60)}` by object identity of two computed values "
+                                            "(lengths, keys or values): equal values held in different objects are taken for "
+                                            "different, so the outcome depends on interning and on the size of the numbers",
+                                            where=f"pvl/collections.py:{c.lineno}"))
+    res.oblige("IS-VALUE", f"{n} identity comparisons in the container module examined", ok=True)
